@@ -108,6 +108,10 @@ def main(tier, seed):
         cover_m = [("mass", "g"), ("mass", "kg"), ("volume", "cm3"), ("volume", "L"), ("molar", "mol"), ("molar", "mmol")]
         stored_lm = [(l, m) for l in cover_l for m in cover_m]
     stored = [state(p=p) for p in all_p()] + [state(l=l, m=m) for l, m in stored_lm]
+    # half of the stored states keep their temperature in degrees Celsius (conversions need the kelvin value)
+    for si, st in enumerate(stored):
+        if si % 4 in (1, 2):      # (not correlated with the fixture, which alternates with si % 2)
+            st["tu"] = "degC"
     args_p = [{"pm": a, "pu": u, "lb": "none", "lu": "none", "mb": "none", "mu": "none"}
               for a in ("none", "absolute", "relative", "relative%", "bogus") for u in ("none", "kPa", "torr", "Pa", "bogus")]
 
@@ -335,6 +339,18 @@ def main(tier, seed):
                 if got_l != want_l:
                     run.violation({"site": "p.loading selection", "observed": "limits on loading do not select exactly the points inside them"},
                                   {"loadings": load, "limits": [lo_v, hi_v], "returned": got_l, "expected": want_l})
+    # net / excess data can be negative: an open limit is open on that side, whatever the sign of the data
+    negp = [0.1, 0.2, 0.3, 0.4, 0.5, 0.6]
+    negl = [-0.4, -0.1, 0.3, 0.9, 1.4, 1.6]
+    iso = pygaps.PointIsotherm(pressure=negp, loading=negl, material="verif_mat", adsorbate="nitrogen", temperature=77, **py_labels(state()))
+    for lims, want in (((None, 0.5), [-0.4, -0.1, 0.3]), ((-0.2, None), [-0.1, 0.3, 0.9, 1.4, 1.6]), ((None, None), negl), ((-1.0, -0.05), [-0.4, -0.1]), ((None, -0.2), [-0.4])):
+        run.count(("select-negative", lims))
+        for unit_kw, f in (({}, 1.0), ({"loading_unit": "mol"}, 1e-3)):
+            lim = tuple(None if v is None else v * f for v in lims)
+            got = [float(v) for v in iso.loading(limits=lim, **unit_kw)]
+            if not numpy.allclose(got, [w * f for w in want], rtol=1e-12, atol=0) or len(got) != len(want):
+                run.violation({"site": "p.loading selection", "observed": "limits on data with negative values do not select exactly the points inside them",
+                               "lower_limit_open": lims[0] is None, "upper_limit_open": lims[1] is None}, {"loadings": negl, "limits": lim, "returned": got, "expected": want})
     run.set(selection_sequences=len(sel_recs))
 
     # ---- C3. interpolation: exact rational expectations
@@ -364,13 +380,15 @@ def main(tier, seed):
                         run.violation({"site": "p." + direction, "observed": "value returned outside the measured range without a fill rule"}, {"grid": [kx, ky], "q": str(q), "returned": got})
                     else:
                         # with a fill rule the fill value is returned
-                        try:
-                            fv = float(getattr(fresh, direction)(float(q), interp_fill=(-7.0, 77.0)))
-                            want = -7.0 if q < kx[0] else 77.0
-                            if fv != want:
-                                run.violation({"site": "p." + direction, "observed": "fill value not returned outside the range"}, {"grid": [kx, ky], "q": str(q), "returned": fv})
-                        except Exception as e:
-                            run.violation({"site": "p." + direction, "observed": "refused outside the range although a fill rule was given", "exception": exc_class(e)}, {"grid": [kx, ky], "q": str(q)})
+                        for fill, wlo, whi in (((-7.0, 77.0), -7.0, 77.0), (0.0, 0.0, 0.0), (0, 0.0, 0.0), (3.5, 3.5, 3.5)):
+                            try:
+                                fv = float(getattr(fresh, direction)(float(q), interp_fill=fill))
+                                want = wlo if q < kx[0] else whi
+                                if fv != want:
+                                    run.violation({"site": "p." + direction, "observed": "fill value not returned outside the range", "fill_rule": repr(fill)}, {"grid": [kx, ky], "q": str(q), "returned": fv})
+                            except Exception as e:
+                                run.violation({"site": "p." + direction, "observed": "refused outside the range although a fill rule was given", "fill_rule": repr(fill),
+                                               "exception": exc_class(e)}, {"grid": [kx, ky], "q": str(q)})
                     continue
                 want = float(Fraction(exp[1][0], exp[1][1]))
                 if err is not None:
